@@ -66,3 +66,18 @@ Proof.
   split; [vm_compute; reflexivity|]. split; [vm_compute; reflexivity|]. split; [vm_compute; reflexivity|].
   vm_compute. discriminate.
 Qed.
+
+(* ---- Electrum v1: 12 words decoding to 17 bytes under the code as it stands ---- *)
+From BU Require Import Model.ElectrumV1Mnemonic.
+Definition ev1_dec_current := ElectrumV1Mnemonic.decode wl_ev1 ev1_word_nums words_to_chunk_current.
+Definition ev1_dec := ElectrumV1Mnemonic.decode wl_ev1 ev1_word_nums words_to_chunk.
+
+Lemma ev1_17_bytes_witness :
+  exists ws b, length ws = 12%nat /\ Forall (fun w => In w wl_ev1) ws /\
+    ev1_dec_current ws = Ok b /\ length b = 17%nat /\ ev1_dec ws = Err ValueError.
+Proof.
+  exists ([nth 0 wl_ev1 []; nth 0 wl_ev1 []; nth 1625 wl_ev1 []] ++ repeat (nth 0 wl_ev1 []) 9).
+  eexists. split; [reflexivity|]. split.
+  - apply all_in_Forall. vm_compute. reflexivity.
+  - split; [vm_compute; reflexivity|]. split; vm_compute; reflexivity.
+Qed.
